@@ -10,7 +10,7 @@ import numpy as np
 import torch
 import pypose as pp
 
-from ..core import rng, refmath
+from ..core import rng, refmath, boundary
 from ..core.outcome import Violation
 from . import optmodels as om
 
@@ -514,6 +514,7 @@ def execute(plan, prop, out, tr):
             # the caller refreshes the weight buffer in place between steps (same storage, new values)
             for wt in (weight if isinstance(weight, (list, tuple)) else [weight]):
                 wt.mul_(1.0 + 0.5 * ((rng.H(s, "rew", ci) % 7) - 2))
+                boundary.refresh(wt)
             out.probe("weights:refreshed-in-place")
         if c.get("refresh_data") and ci > 0 and not scripted:
             # another batch of data for this call (same shapes): every call is the documented solve for ITS data
